@@ -9,6 +9,7 @@
   `render`: the layout of a document as XML events).
 -/
 import DltVerif.Lemmas.FibexRead
+import DltVerif.Lemmas.FibexOrder
 
 namespace Dlt
 open Dlt.Fibex Dlt.Fibex.Spec
@@ -146,6 +147,36 @@ theorem C11_first_wins (files : List FileDoc) (md : FibexMetadata) (h : Spec.mod
         simp only [hk, if_false, hb]
         exact ih hall.2
   · cases h
+
+/-- loading fails for a permutation of the elements exactly when it fails for the original -/
+theorem C11_order_fails (es es' : List Elem) (hp : es.Perm es') (hd : DistinctIds es) :
+    (Spec.model [es]).isSome = (Spec.model [es']).isSome := by
+  have hfm : frameMeta es = frameMeta es' := funext (frameMeta_perm hp hd)
+  have hall : (framesOf es).all (fun f => (frameMeta es f).isSome)
+      = (framesOf es').all (fun f => (frameMeta es' f).isSome) := by
+    rw [hfm]
+    exact (hp.filterMap _).all_eq
+  unfold Spec.model
+  simp only [List.flatten_cons, List.flatten_nil, List.append_nil]
+  rw [hall]
+  split <;> rfl
+
+/-- the order of the elements inside the documents does not matter: with pairwise distinct
+    ids of each kind, every frame looked up by its id is the same frame (short name, PDUs in
+    sequence order with their resolved signal types, extension) for every permutation of the
+    elements -/
+theorem C11_order_independent (es es' : List Elem) (hp : es.Perm es') (hd : DistinctIds es)
+    (md md' : FibexMetadata) (h : Spec.model [es] = some md) (h' : Spec.model [es'] = some md')
+    (id : Bytes) : lookupKV md.frameMap id = lookupKV md'.frameMap id := by
+  have e1 := C11_first_wins [es] md h id
+  have e2 := C11_first_wins [es'] md' h' id
+  simp only [List.flatten_cons, List.flatten_nil, List.append_nil] at e1 e2
+  rw [e1, e2]
+  have hfm : frameMeta es = frameMeta es' := funext (frameMeta_perm hp hd)
+  rw [hfm]
+  have : (framesOf es).find? (fun f => f.id == id) = (framesOf es').find? (fun f => f.id == id) :=
+    find?_perm (fun (f : FrameDoc) => f.id) id (hp.filterMap _) hd.2.1
+  rw [this]
 
 /-- a reference to an unknown PDU makes loading fail -/
 theorem C11_unknown_pdu_fails (files : List FileDoc) (f : FrameDoc) (i : Inst)
